@@ -32,7 +32,7 @@ type vObjState struct {
 	og         int64
 	condsKind  int // 0 absent, 1 not a list, 2 list
 	conds      []vCondEntry
-	fieldKind  [2]int // per field: 0 absent, 1 int64, 2 string
+	fieldKind  [2]int // per field: 0 absent, 1 int64, 2 string, 3 empty string
 	fieldVal   [2]int64
 }
 
@@ -113,13 +113,15 @@ func vDrawObject() (*unstructured.Unstructured, *vObjState) {
 			if !withFields {
 				continue
 			}
-			s.fieldKind[f] = pick("status."+name+".kind", 2, []int{0, 1})
+			s.fieldKind[f] = pick("status."+name+".kind", 3, []int{0, 1})
 			switch s.fieldKind[f] {
 			case 1:
 				s.fieldVal[f] = verifrt.Int64("status." + name)
 				st[name] = s.fieldVal[f]
 			case 2:
 				st[name] = "three"
+			case 3:
+				st[name] = "" // present but empty: equal only to another empty string
 			}
 		}
 		u.Object["status"] = st
@@ -278,7 +280,7 @@ func (s *vObjState) fieldsEqualVerdict() bool {
 	if s.fieldKind[0] != s.fieldKind[1] {
 		return false
 	}
-	if s.fieldKind[0] == 2 {
+	if s.fieldKind[0] == 2 || s.fieldKind[0] == 3 {
 		return true
 	}
 	return s.fieldVal[0] == s.fieldVal[1]
